@@ -324,6 +324,7 @@ class Replay:
         self.hist = None
         self.bc = None
         self.exp_norm = None
+        self.alias_period = None   # enlarge_mps_unit_cell may store one tensor for the sites j, j + L_old
         self.jw_seen = False
         self.sign_free = False   # compare up to a global sign (documented loss of a global sign with JW strings)
 
@@ -405,18 +406,54 @@ class Replay:
             if h is None:
                 from . import core
                 raise core.MachineryError('no replay handler for op %r' % op)
+            held = None
+            if self.psi is not None and n > 0:
+                # tensors a caller may still reference (get_B(copy=False), copy() shares nothing): a transformation
+                # has to replace stored tensors, not rescale them in place
+                held = [(B, list(B.get_leg_labels()), B.to_ndarray().copy()) for B in self.psi._B]
             res = h(self, l, o)
             if res is False:
                 return False
             res = res or {}
             sig = res.get('sig', {})
+            if held is not None and not res.get('inplace_ok'):
+                for k, (B, lab, old) in enumerate(held):
+                    try:
+                        now = B.transpose(lab).to_ndarray()
+                    except Exception:  # labels / legs replaced: the object was re-used for something else
+                        now = None
+                    if now is None or now.shape != old.shape or not np.array_equal(now, old):
+                        self.violation(op, 'stored-tensor-modified-in-place', dict(site=k), **sig)
+                        return False
             self.ctx.case((self.spec, self.origin, n, op), action='%s.%s' % (self.spec, op))
             self.track_norm(l, o)
+            if op == 'enlarge_mps_unit_cell':
+                per = self.psi.L // int(l['factor'])
+                self.alias_period = per if self.alias_period is None else int(np.gcd(per, self.alias_period))
+            al = aliased_tensors(self.psi, self.alias_period)
+            if al:
+                self.violation(op, 'aliased-tensors', dict(pairs=al), **sig)
+                return False
             if res.get('skip_state'):
                 continue
             if not self.compare_state(op, o, res, sig):
                 return False
         return True
+
+
+def aliased_tensors(psi, period=None):
+    """pairs of sites whose stored tensors share memory (a later in-place operation on one would change the other)"""
+    out = []
+    if psi is None:
+        return out
+    Bs = psi._B
+    for i in range(len(Bs)):
+        for j in range(i + 1, len(Bs)):
+            if period and (j - i) % period == 0:
+                continue
+            if Bs[i] is Bs[j] or any(np.shares_memory(x, y) for x in Bs[i]._data for y in Bs[j]._data):
+                out.append((i, j))
+    return out
 
 
 def _cl(a):
@@ -428,6 +465,10 @@ def _cl(a):
 def h_new(rp, l, o):
     rp.psi = build_mps(rep_to_rec(l['rep'], l['nrm']))
     rp.bc = l['rep']['bc']
+    for b, e in enumerate(l['rep']['S']):
+        if not exact_equal(np.asarray(rp.psi._S[b]), S_from_exp(e)):
+            rp.violation('new', 'stored-S', dict(bond=b), cons=l['rep']['cons'])
+            return False
     return dict(sig=dict(cons=l['rep']['cons']))
 
 
@@ -435,6 +476,8 @@ def _pstate(kind, how, vec):
     v = [gi(z) for z in vec]
     if how == 'array':
         return np.array(v)
+    if how == 'array1':          # a basis state given as a 1D local wave function
+        return np.array(v).real
     idx = [k for k, z in enumerate(v) if z != 0]
     assert len(idx) == 1
     return idx[0] if how == 'int' else LABELS[kind][idx[0]]
@@ -444,7 +487,8 @@ def h_product(rp, l, o):
     from tenpy.networks.mps import MPS
     kinds = list(l['kinds'])
     sites = make_sites(kinds, l['cons'])
-    p_state = [_pstate(kinds[i], l['how'], l['vecs'][i]) for i in range(len(kinds))]
+    hows = list(l.get('hows') or [l['how']] * len(kinds))
+    p_state = [_pstate(kinds[i], hows[i], l['vecs'][i]) for i in range(len(kinds))]
     cplx = l['how'] == 'array' and any(np.any(np.asarray(p).imag != 0) for p in p_state)
     if l['how'] == 'array' and not cplx:
         p_state = [np.asarray(p).real for p in p_state]
@@ -483,7 +527,19 @@ def h_covering(rp, l, o):
     rp.bc = 'finite'
     rp.psi = quiet(MPS.from_product_mps_covering, locs, [tuple(m) for m in l['imap']], bc='finite', unit_cell_width=l['n'])
     srt = all(list(m) == sorted(m) for m in l['imap'])
-    return dict(sig=dict(sorted_maps=srt))
+    sig = dict(sorted_maps=srt, cons=l.get('cons', 'none'))
+    # the stored bond values, each with the charge of its index, are the combinations of the local ones
+    psi = rp.psi
+    for b, bag in enumerate(l.get('Sbag', []), start=1):
+        want = sorted((int(q), float(2.0 ** int(e))) for q, e in bag)
+        q = psi._B[b].get_leg('vL').to_qflat()
+        q = [int(x[0]) if len(x) else 0 for x in q]
+        got = sorted(zip(q, [float(x) for x in np.asarray(psi._S[b])]))
+        rp.ctx.case((rp.origin, rp.step, 'covering-S', b), action='%s.stored_S' % rp.spec)
+        if got != want:
+            rp.violation('from_product_mps_covering', 'stored-S-per-charge', dict(bond=b, got=got[:40], expected=want[:40]), **sig)
+            return False
+    return dict(sig=sig)
 
 
 def h_from_full(rp, l, o):
